@@ -37,6 +37,8 @@ logger_invalid = logging.getLogger('spyne.protocol.xml.invalid')
 from inspect import isgenerator
 from collections import defaultdict
 
+import threading
+
 from lxml import etree
 from lxml import html
 from lxml.builder import E
@@ -343,6 +345,7 @@ class XmlDocument(SubXmlBase):
                                                 binary_encoding=binary_encoding)
 
         self.validation_schema = None
+        self._validation_lock = threading.Lock()
         self.xml_declaration = xml_declaration
         self.cleanup_namespaces = cleanup_namespaces
         self.replace_null_with_default = replace_null_with_default
@@ -449,11 +452,18 @@ class XmlDocument(SubXmlBase):
             self.validation_schema = xml_schema.validation_schema
 
     def __validate_lxml(self, payload):
-        ret = self.validation_schema.validate(payload)
+        # The XMLSchema object and its error_log are shared by all threads:
+        # validate() and the read of the error it left must not interleave
+        # with another request's validate().
+        with self._validation_lock:
+            ret = self.validation_schema.validate(payload)
+            error_text = None
+            if ret == False:
+                error_text = text_type(
+                                self.validation_schema.error_log.last_error)
 
         logger.debug("Validated ? %r" % ret)
         if ret == False:
-            error_text = text_type(self.validation_schema.error_log.last_error)
             raise SchemaValidationError(error_text.encode('ascii',
                                                            'xmlcharrefreplace'))
 
